@@ -259,6 +259,98 @@ pub fn run_c08(ctx: &Ctx) -> i32 {
         trans.extend(tr);
         n += k;
     }
+    // phase 2: poll outcomes through the real poller AND the real writer loop (PHC configured): the
+    // status must be the documented one for the outcome, where "within / beyond the grace period" is
+    // what the age of the last good answer says
+    let p2_depth = ctx.opt_usize("pipeline_depth").unwrap_or(ctx.tier.pick(4, 5));
+    let mut p2_alpha: Vec<Step> = vec![];
+    for (ans, readable) in [(Ans::TrackA, true), (Ans::TrackA, false), (Ans::TrackB, true), (Ans::Unsync, true), (Ans::Stale, true), (Ans::Silent, true)] {
+        for gap in [1000i64, 5100] {
+            p2_alpha.push(Step { ans, phc_readable: readable, gap_ms: gap, latency_ms: 0 });
+        }
+    }
+    let p2_tails = sequences(&p2_alpha, p2_depth - 1);
+    let base = ctx.scratch();
+    let p2 = par::map(p2_alpha.len(), |a| {
+        let dir = base.join(format!("c08-{a}"));
+        let _ = std::fs::create_dir_all(&dir);
+        let mut sink = Sink::new();
+        let mut n = 0u64;
+        for t in &p2_tails {
+            let mut steps = vec![p2_alpha[a]];
+            steps.extend(t.iter().cloned());
+            n += 1;
+            let doc = |k: usize| json!({"check": "C08", "phase": "pipeline", "steps": steps.iter().map(|s| json!({"answer": format!("{:?}", s.ans), "phc_file_readable": s.phc_readable, "gap_ms": s.gap_ms})).collect::<Vec<_>>(), "failing_step": k});
+            let res = match poller_run(&steps, true, &dir) {
+                Ok(r) => r,
+                Err(e) => {
+                    sink.add("C08:pipeline:poller-panic".into(), e, doc(0));
+                    continue;
+                }
+            };
+            let msgs: Vec<Message> = res.iter().flat_map(|(m, _)| m.iter().cloned()).collect();
+            if msgs.len() != steps.len() {
+                sink.add("C08:pipeline:message-count".into(), format!("{} polls, {} messages", steps.len(), msgs.len()), doc(0));
+                continue;
+            }
+            vclock::arm(VClock { real_ns: R0 + 1000 * S, mono_ns: 6000 * S, auto_advance_ns: 0, fail_errno: 0, fail_clock: -1 });
+            // the staleness test of the updater reads the realtime clock: process each message at its own instant
+            let times: Vec<i128> = {
+                let mut t = 0i128;
+                steps.iter().map(|s| { t += s.gap_ms as i128 * 1_000_000; t }).collect()
+            };
+            vclock::set_times(R0 + times[0], 5000 * S + times[0]);
+            let out = std::rc::Rc::new(std::cell::RefCell::new(vec![]));
+            let o2 = out.clone();
+            let tms = times.clone();
+            let r = std::panic::catch_unwind(std::panic::AssertUnwindSafe(|| {
+                pipeline::run_updater(msgs, 1000, move |i, c| {
+                    o2.borrow_mut().push(Rec::from_ceb(c));
+                    if let Some(t) = tms.get(i + 1) {
+                        vclock::set_times(R0 + *t, 5000 * S + *t);
+                    }
+                })
+            }));
+            vclock::disarm();
+            if r.is_err() {
+                sink.add("C08:pipeline:writer-panic".into(), "the writer loop panicked".into(), doc(0));
+                continue;
+            }
+            let recs = out.borrow().clone();
+            if recs.len() != steps.len() {
+                sink.add("C08:pipeline:publication-count".into(), format!("{} polls, {} publications", steps.len(), recs.len()), doc(0));
+                continue;
+            }
+            let mut seen_sync = false;
+            for (k, st) in steps.iter().enumerate() {
+                let exp_class = &res[k].1;
+                let expected_status = match st.ans {
+                    Ans::TrackB => 1,
+                    Ans::TrackA if st.phc_readable => 1,
+                    Ans::TrackA => 2, // PHC read failure on a poll chronyd answered: the last good answer is 0 s old
+                    Ans::Unsync | Ans::Stale => 2,
+                    _ => if exp_class == "silent-grace" { 2 } else { 0 },
+                };
+                if expected_status == 1 {
+                    seen_sync = true;
+                }
+                if seen_sync && recs[k].status != expected_status {
+                    sink.add(
+                        format!("C08:pipeline:status:{:?}{}->{}", st.ans, if st.phc_readable { "" } else { "-phc-unreadable" }, status_name(recs[k].status)),
+                        format!("polls {:?}: after poll {k} the published status is {}, documented for this outcome: {}", steps.iter().map(|s| format!("{:?}{}@+{}ms", s.ans, if s.phc_readable { "" } else { "(PHC unreadable)" }, s.gap_ms)).collect::<Vec<_>>(), status_name(recs[k].status), status_name(expected_status)),
+                        doc(k),
+                    );
+                    break;
+                }
+            }
+        }
+        (sink, n)
+    });
+    let mut p2_n = 0u64;
+    for (s, k) in p2 {
+        sink.merge(s);
+        p2_n += k;
+    }
     let sample_seq = vec![Out::S1, Out::Ng, Out::U, Out::S2, Out::N];
     let sample = publish_seq(&sample_seq, 1000, 12345, 5000).unwrap_or_default();
     let coverage = cov(vec![
@@ -270,6 +362,7 @@ pub fn run_c08(ctx: &Ctx) -> i32 {
         ("distinct_nontrivial", json!(n)),
         ("rule", json!("every sequence of poll outcomes of the stated depth over 10 outcome kinds, for each configuration; every sequence is distinct; every publication of every prefix is compared field by field with the reference updater")),
         ("depth", json!(depth)),
+        ("pipeline_phase", json!({"histories": p2_n, "depth": p2_depth, "step_alphabet": p2_alpha.len(), "what": "poll answers (tracking with the PHC's id and a readable / unreadable PHC file, another id, unsynchronised, stale, silence) x gap 1 s / 5.1 s through the real poller and the real writer loop; status compared with the documented one for the outcome"})),
         ("outcome_kinds", json!(ALL_OUT.iter().map(|o| o.name()).collect::<Vec<_>>())),
         ("configurations_drift_ppb_phc_ns", json!(cfgs)),
         ("reference_states", json!("(status class of the latest outcome, which synchronised report is frozen, whether one was seen)")),
@@ -561,6 +654,10 @@ pub enum Ans {
     TrackB,
     Silent,
     Other,
+    /// tracking data with leap status 3 (reference id B)
+    Unsync,
+    /// tracking data whose reference time is older than eight update intervals (reference id B)
+    Stale,
 }
 
 #[derive(Clone, Copy, Debug, PartialEq, Eq, Hash, PartialOrd, Ord)]
@@ -586,7 +683,12 @@ fn msg_class(m: &Message) -> String {
 }
 
 fn c13_run(steps: &[Step], phc_cfg: bool, dir: &std::path::Path) -> Result<Vec<(Vec<String>, String)>, String> {
-    // returns per step (observed message classes, expected class pattern)
+    poller_run(steps, phc_cfg, dir).map(|v| v.into_iter().map(|(m, e)| (m.iter().map(msg_class).collect(), e)).collect())
+}
+
+/// Run the steps through the real polling loop; per step: the messages sent to the writer thread
+/// and the class of message the reference poller expects.
+fn poller_run(steps: &[Step], phc_cfg: bool, dir: &std::path::Path) -> Result<Vec<(Vec<Message>, String)>, String> {
     let good = dir.join("phc_ok");
     let _ = std::fs::write(&good, "12345\n");
     let bad = dir.join("phc_missing");
@@ -602,9 +704,12 @@ fn c13_run(steps: &[Step], phc_cfg: bool, dir: &std::path::Path) -> Result<Vec<(
             vclock::set_times(R0 + (now - m0), now);
             let poll_start = now;
             let spec = |id: u32| TrackSpec { ref_id: id, leap: 0, ref_time_ns: R0, offset_bits: encode_float(0.001), delay_bits: encode_float(0.01), disp_bits: encode_float(0.01), interval_bits: encode_float(16.0) };
+            let real_now = R0 + (now - m0);
             let answer = match st.ans {
-                Ans::TrackA => Answer::Wire(tracking_wire(&spec(ID_A), 7)),
-                Ans::TrackB => Answer::Wire(tracking_wire(&spec(ID_B), 7)),
+                Ans::TrackA => Answer::Wire(tracking_wire(&TrackSpec { ref_time_ns: real_now - S, ..spec(ID_A) }, 7)),
+                Ans::TrackB => Answer::Wire(tracking_wire(&TrackSpec { ref_time_ns: real_now - S, ..spec(ID_B) }, 7)),
+                Ans::Unsync => Answer::Wire(tracking_wire(&TrackSpec { leap: 3, ref_time_ns: real_now - S, ..spec(ID_B) }, 7)),
+                Ans::Stale => Answer::Wire(tracking_wire(&TrackSpec { ref_time_ns: real_now - 129 * S, ..spec(ID_B) }, 7)),
                 Ans::Silent => Answer::Silent,
                 Ans::Other => Answer::Wire(null_reply_wire(7)),
             };
@@ -614,7 +719,7 @@ fn c13_run(steps: &[Step], phc_cfg: bool, dir: &std::path::Path) -> Result<Vec<(
             // reference poller
             let as_of = format!("{}.{:09}", poll_start / S, poll_start % S);
             let expected = match st.ans {
-                Ans::TrackA | Ans::TrackB => {
+                Ans::TrackA | Ans::TrackB | Ans::Unsync | Ans::Stale => {
                     last_good = now;
                     let matches = phc_cfg && st.ans == Ans::TrackA;
                     if matches && !st.phc_readable {
@@ -631,7 +736,7 @@ fn c13_run(steps: &[Step], phc_cfg: bool, dir: &std::path::Path) -> Result<Vec<(
                     }
                 }
             };
-            out.push((msgs.iter().map(msg_class).collect::<Vec<_>>(), expected));
+            out.push((msgs, expected));
         }
         out
     });
